@@ -68,6 +68,7 @@ class VLoop(base_events.BaseEventLoop):
         self._selector = _Sel(self)
         self._clock_resolution = 1
         self.cycles = 0
+        self.cycle_ticks: list = []
         self.steered = None
         self.errors: list = []
         self.set_exception_handler(self._on_exc)
@@ -125,6 +126,7 @@ class VLoop(base_events.BaseEventLoop):
                 self._run_once()
                 if self.steered is not None:
                     raise self.steered
+                self.cycle_ticks.append(self._vtime)
                 self.cycles += 1
                 if self.cycles > max_cycles:
                     raise CycleBudget(self.cycles)
